@@ -730,6 +730,10 @@ def dump_one(f: TextIO, data: IOData):
         if item in level:
             level = item
     for key, arr in data.one_rdms.items():
+        # convert to FCHK basis conventions
+        if data.obasis is not None:
+            permutation, signs = convert_conventions(data.obasis, CONVENTIONS)
+            arr = arr[permutation][:, permutation] * signs.reshape(-1, 1) * signs
         # get lower triangular elements of RDM
         mat = arr[np.tril_indices(arr.shape[0])]
 
